@@ -99,6 +99,32 @@ def serve_case(res, rng, length, tmp):
     try:
         for n in nodes:
             eng.feed(f"{n};255;0;0;17;{version}")
+        # --- history before the image under test: an earlier image under the SAME (type, version), partly fetched,
+        #     and/or another firmware being served to another node at the same time
+        prior = rng.choice(["none", "none", "same-id-reloaded", "other-firmware-in-parallel", "same-id-reloaded"])
+        case["prior"] = prior
+        other = None
+        if prior == "same-id-reloaded":
+            old_len = rng.choice([length, max(1, length // 2), length + 160, 300])
+            old_img = bytes((b + 1) & 0xFF for b in (rng.randbytes(old_len)))
+            eng.call("fw", nodes, ft, fv, old_img)
+            for n in nodes[:1]:
+                n0 = len(eng.sent)
+                eng.feed(f"{n};255;4;0;0;{le(ft, fv, 5, 0x1111, 0x0101)}")
+                got = [l for (_s, _o, l) in eng.sent[n0:]]
+                w = words(got[0].rstrip("\n").split(";")[5], 4) if got else None
+                if w:
+                    for i in sorted(set([0, 1, w[2] - 1] + [rng.randrange(w[2]) for _ in range(12)])):
+                        eng.feed(f"{n};255;4;0;2;{le(ft, fv, i)}")
+            res.count("reloaded_same_id_cases")
+        elif prior == "other-firmware-in-parallel":
+            eng.feed(f"77;255;0;0;17;{version}")
+            oft, ofv = (ft + 1) % 65536, fv
+            oimg = rng.randbytes(rng.choice([40, 128, 500]))
+            eng.call("fw", 77, oft, ofv, oimg)
+            eng.feed(f"77;255;4;0;0;{le(oft, ofv, 5, 0x1111, 0x0101)}")
+            other = (77, oft, ofv, oimg)
+            res.count("parallel_firmware_cases")
         if via_hex:
             base = rng.choice([0, 0, 0x100, 0x7000])
             path = os.path.join(tmp, f"fw{os.getpid()}.hex")
@@ -149,6 +175,18 @@ def serve_case(res, rng, length, tmp):
                 reqs.append((rng.choice(nodes), i))
         blocks = {}
         for (n, i) in reqs:
+            if other is not None and rng.random() < 0.2:
+                # the other node keeps fetching its own firmware in between
+                on, oft, ofv, oimg = other
+                oi = rng.randrange((len(oimg) + 127) // 128 * 8)
+                m0 = len(eng.sent)
+                eng.feed(f"{on};255;4;0;2;{le(oft, ofv, oi)}")
+                og = [l for (_s, _o, l) in eng.sent[m0:]]
+                opad = oimg + b"\xff" * ((-len(oimg)) % 128)
+                want = opad[16 * oi:16 * oi + 16]
+                if len(og) != 1 or og[0].rstrip("\n").split(";")[5][12:].lower() != want.hex():
+                    res.violation("parallel-firmware-block-wrong", f"node {on} fetching firmware ({oft},{ofv}) block {oi} got {og!r}", case)
+                    return
             n0 = len(eng.sent)
             eng.feed(f"{n};255;4;0;2;{le(ft, fv, i)}")
             got = [l for (_s, _o, l) in eng.sent[n0:]]
@@ -193,7 +231,7 @@ def serve_case(res, rng, length, tmp):
         if crc16_modbus(P) != C:
             res.violation("crc-mismatch", f"advertised CRC {C:#06x}, CRC-16/MODBUS of the served blocks is {crc16_modbus(P):#06x} (length {length})", case); ok = False
         bucket = 0 if length < 128 else 1 if length < 1024 else 2 if length < 8192 else 3
-        res.nontrivial((length % 16, length % 128, bucket, order_kind, len(nodes), via_hex))
+        res.nontrivial((length % 16, length % 128, bucket, order_kind, len(nodes), via_hex, prior))
         res.sample({k: case[k] for k in ("length", "version", "flavour", "content", "type", "ver", "nodes", "via_hex")} | {"order": order_kind, "blocks": B})
     except PumpDied:
         res.violation(f"raises:{core.exc_sig(eng.pump_exc)}", f"OTA handling raised {type(eng.pump_exc).__name__}: {eng.pump_exc}", case)
@@ -232,9 +270,12 @@ def finish(agg, tier):
                 "non-zero base); 1-3 updating nodes; blocks requested in identity / reverse / shuffled-with-repeats / interleaved "
                 "order through Gateway.logic. The served blocks are reassembled and checked: length 16*B, multiple of 128, image "
                 "prefix, <= 128 bytes of 0xFF padding, independent CRC-16/MODBUS == advertised, echo of (type, version, index), "
-                "stability across repeats and nodes. distinct = (len mod 16, len mod 128, size bucket, order class, #nodes, hex?).",
+                "stability across repeats and nodes. Histories before the image under test: none / a different image loaded "
+                "under the same (type, version) and partly fetched / another firmware served to another node in parallel. distinct = "
+                "(len mod 16, len mod 128, size bucket, order class, #nodes, hex?, prior history).",
         "floors": [("images_reassembled", c.get("images_reassembled", 0), 300), ("block_requests", c.get("block_requests", 0), 100000),
-                   ("intel_hex_loads", c.get("intel_hex_loads", 0), 80)],
+                   ("intel_hex_loads", c.get("intel_hex_loads", 0), 80),
+                   ("reloaded_same_id_cases", c.get("reloaded_same_id_cases", 0), 80), ("parallel_firmware_cases", c.get("parallel_firmware_cases", 0), 40)],
         "assumptions": ["independent bitwise CRC-16/MODBUS (poly 0xA001, init 0xFFFF)"],
         "show": ["images_reassembled", "block_requests", "intel_hex_loads"],
     }
